@@ -124,6 +124,14 @@ def run_impl(tools, case, cb, datadir=None, outdir=None, release=False, env=None
     own_out = outdir is None and cb in NEEDS_DIR
     if own_out:
         outdir = base + '_out'; os.makedirs(outdir)
+    stale = {}
+    if prefill == 'stale' or (own_out and prefill is None):
+        # every run starts from a dump folder that holds leftovers of an aborted earlier run (tmp files LONGER than anything this run writes)
+        # and another run's result: the property (C10 / C13) says they must not change the outcome
+        stems = {'csv': ['blocks', 'transactions', 'tx_in', 'tx_out'], 'unspent': ['unspent'], 'balances': ['balances']}[cb]
+        stale = {'%s.csv.tmp' % st: b'stale;row;of;an;aborted;run\n' * 6000 for st in stems}
+        stale['%s-31337-31338.csv' % stems[0]] = b'result of another run\n'
+        prefill = stale
     if prefill and outdir:
         for name, data in prefill.items():
             with open(os.path.join(outdir, name), 'wb') as f: f.write(data)
@@ -144,6 +152,11 @@ def run_impl(tools, case, cb, datadir=None, outdir=None, release=False, env=None
             pth = os.path.join(outdir, name)
             if os.path.isfile(pth):
                 with open(pth, 'rb') as f: r.files[name] = f.read()
+    if stale:
+        other = '%s-31337-31338.csv' % {'csv': 'blocks', 'unspent': 'unspent', 'balances': 'balances'}[cb]
+        r.foreign_touched = r.files.get(other) != stale[other]
+        r.files.pop(other, None)
+        for nm in [n for n in r.files if n.endswith('.tmp') and r.files[n] == stale.get(n)]: r.files[nm] = b''      # an untouched stale tmp counts as "tmp present, nothing of this run in it"
     r.datadir = datadir; r.outdir = outdir
     if not keep:
         if own_dd: shutil.rmtree(datadir, ignore_errors=True)
@@ -194,6 +207,7 @@ def cmp_csv(r, m, case):
         return d
     first, last = m['status'][1], m['status'][2]
     want_names = {'%s-%s-%s.csv' % (s, first, last): i for i, s in enumerate(CSV_STEMS)}
+    if getattr(r, 'foreign_touched', False): d.append("another run's result file in the dump folder was modified or removed")
     if set(r.files) != set(want_names): d.append('file names impl=%s model=%s' % (sorted(r.files), sorted(want_names)))
     for name, i in want_names.items():
         if name in r.files:
@@ -217,6 +231,7 @@ def cmp_rows_file(r, m, stem, header, mrows, totals_key=None):
         return d
     first, last = m['status'][1], m['status'][2]
     name = '%s-%s-%s.csv' % (stem, first, last)
+    if getattr(r, 'foreign_touched', False): d.append("another run's result file in the dump folder was modified or removed")
     if list(r.files) != [name]: d.append('file names impl=%s model=%s' % (sorted(r.files), [name])); return d
     rows = r.files[name].decode(errors='replace').split('\n')
     if rows and rows[-1] == '': rows.pop()
